@@ -48,7 +48,17 @@ def main(tier, seed, replay):
     return V.finish(floor_nontrivial=100 if tier == 'quick' else 1000, floor_evaluations=2000)
 
 
+DECOY = '{"version":"1.1","potential mantle temperature":999.0,"features":[]}'
+
+
 def build(rng, wid, path, files, ctx, pts, cross, ncomp, is_random):
+    if files and rng.random() < 0.25:
+        # the file name must reach the world as it is: a name that ends in blanks (or carries blanks inside) next to a decoy file
+        # with the tidy name and another content
+        (fn, content), = files.items()
+        odd = rng.choice([fn + ' ', fn + '  ', fn.replace('.wb', ' .wb'), fn.replace('g', 'g g', 1) + ' '])
+        files = {odd: content, fn: DECOY, odd.strip(): DECOY}
+        path = path[:-len(fn)] + odd
     c = core.Case('w%d' % wid, files=files)
     seed = rng.choice([1, 1, 0, 7, 12345, 2 ** 31 + 3, 2 ** 32 - 1])
     has = rng.choice([-1, 0, 1])
